@@ -120,7 +120,8 @@ class Collection:
                 nxt = rnd.choice((lambda: "{|\n| %s || %s\n|}" % (word(), word()), lambda: " %s preformatted" % word(), lambda: "----",
                                   lambda: "<center>[[File:%s|50px]]</center>" % im, lambda: "* %s\n* %s" % (word(), word()),
                                   lambda: "<gallery>\nFile:%s|%s\n</gallery>" % (im, word())))()
-                head = ("== %s ==\n" % word()) if rnd.random() < 0.6 else ""
+                eq = rnd.choice(("==", "===", "===", "===="))
+                head = ("%s %s %s\n" % (eq, word(), eq)) if rnd.random() < 0.7 else ""
                 parts.append("\n\n%s\n\n%s\n%s%s\n\n%s\n" % (word(), thumbs, head, nxt, word()))
             if rnd.random() < 0.35:
                 # a cell spanning columns and rows, with real cells in the rows it spans
